@@ -90,6 +90,42 @@ impl ReadCursor {
         (*(h as *const Reader)).vf_set_consumers(v)
     }
 
+    /// Environment move (layer I): ANOTHER consumer handle completes an add_stream right now: a new list
+    /// (current list + a new position object at `pos`) replaces the published one; the old list is retired
+    /// (kept alive: the harness never reclaims).  Returns the address of the new stream's position counter.
+    pub(crate) unsafe fn vf_env_add_stream(&self, pos: usize, wrap: Index) -> usize {
+        let cur = &*self.readers.peek();
+        let p: *mut ReaderPos = alloc::allocate(1);
+        ptr::write(p, ReaderPos { pos_data: CountedIndex::from_usize(pos, wrap) });
+        let mut list: Vec<*const ReaderPos> = Vec::with_capacity(MAXS + 2);
+        let mut i = 0;
+        while i < cur.readers.len() {
+            list.push(cur.readers[i]);
+            i += 1;
+        }
+        list.push(p as *const ReaderPos);
+        let ng: *mut ReaderGroup = alloc::allocate(1);
+        ptr::write(ng, ReaderGroup { readers: list });
+        self.readers.poke(ng);
+        (*p).pos_data.vf_cell_addr()
+    }
+    /// ghost: number of streams in the published list / is a position counter cell part of it
+    pub(crate) unsafe fn vf_list_len(&self) -> usize {
+        (*self.readers.peek()).readers.len()
+    }
+    pub(crate) unsafe fn vf_list_has_cell(&self, cell: usize) -> bool {
+        let g = &*self.readers.peek();
+        let mut i = 0;
+        let mut r = false;
+        while i < g.readers.len() {
+            if (*g.readers[i]).pos_data.vf_cell_addr() == cell {
+                r = true;
+            }
+            i += 1;
+        }
+        r
+    }
+
     pub(crate) fn vf_readers_addr(&self) -> usize {
         &self.readers as *const AtomicPtr<ReaderGroup> as usize
     }
